@@ -148,41 +148,29 @@ Proof.
   rewrite skip_chars_ok by exact H. do 2 f_equal. unfold sat64, MIN64, MAX64. lia.
 Qed.
 
-(* full strength for count >= 0: the PostgreSQL range [from, from + count) clamped to the string.
-   (A Rust string holds at most isize::MAX = 2^63 - 1 bytes; the hypothesis on the length only
-   excludes a string of exactly that many one-byte characters.) *)
+(* full strength, every i64 from and count: the range [from, from + count) clamped to the string,
+   '' for a negative count.  (A Rust string holds at most isize::MAX = 2^63 - 1 bytes; the hypothesis
+   on the length only excludes a string of exactly that many one-byte characters.) *)
 Lemma substring_correct fuel cs from count :
-  in_i64 from -> in_i64 count -> (0 <= count)%Z -> (Z.of_N (lenN cs) < MAX64)%Z ->
-  lenN cs <= N.of_nat fuel ->
-  option_map Ok (spec_substring cs from count) = Some (impl_substring fuel cs from count).
+  in_i64 from -> in_i64 count -> (Z.of_N (lenN cs) < MAX64)%Z -> lenN cs <= N.of_nat fuel ->
+  impl_substring fuel cs from count = Ok (spec_substring cs from count).
 Proof.
-  unfold in_i64. intros Rf Rc C L H. rewrite substring_eval by exact H. unfold spec_substring.
-  destruct (count <? 0)%Z eqn:E; [lia|]. cbv zeta. cbn [option_map]. do 2 f_equal.
+  unfold in_i64. intros Rf Rc L H. rewrite substring_eval by exact H. unfold spec_substring. f_equal.
+  unfold MIN64, MAX64 in *.
+  destruct (count <? 0)%Z eqn:E.
+  { replace (Z.to_N (Z.max (sat64 (sat64 (from + Z.max count 0) - Z.max from 1)) 0)) with 0
+      by (unfold sat64, MIN64, MAX64; lia).
+    apply takeN_0. }
+  cbv zeta.
   set (rest := dropN (Z.to_N (Z.max from 1 - 1)) cs).
   assert (LR : lenN rest = lenN cs - Z.to_N (Z.max from 1 - 1)) by apply lenN_dropN.
-  unfold MIN64, MAX64 in *.
   destruct (Z_le_gt_dec (from + count) (2 ^ 63 - 1)) as [S|S].
   - f_equal. unfold sat64, MIN64, MAX64. lia.
   - rewrite !takeN_all; [reflexivity| |]; rewrite LR; unfold sat64, MIN64, MAX64; lia.
 Qed.
 
-Example substring_hyp_sat : in_i64 0 /\ in_i64 2 /\ (0 <= 2)%Z /\ (Z.of_N (lenN [104; 105]) < MAX64)%Z /\ lenN [104; 105] <= N.of_nat 2.
+Example substring_hyp_sat : in_i64 0 /\ in_i64 (-2) /\ (Z.of_N (lenN [104; 105]) < MAX64)%Z /\ lenN [104; 105] <= N.of_nat 2.
 Proof. unfold in_i64, MIN64, MAX64. repeat split; vm_compute; congruence. Qed.
-
-(* the one remaining deviation: a negative count gives '' where PostgreSQL raises an error *)
-Lemma substring_negative_count fuel cs from count :
-  in_i64 from -> (count < 0)%Z -> lenN cs <= N.of_nat fuel ->
-  impl_substring fuel cs from count = Ok [] /\ spec_substring cs from count = None.
-Proof.
-  unfold in_i64, MIN64, MAX64. intros R C H. split.
-  - rewrite substring_eval by exact H.
-    replace (Z.to_N (Z.max (sat64 (sat64 (from + Z.max count 0) - Z.max from 1)) 0)) with 0
-      by (unfold sat64, MIN64, MAX64; lia).
-    rewrite takeN_0. reflexivity.
-  - unfold spec_substring. destruct (count <? 0)%Z eqn:E; [reflexivity|lia].
-Qed.
-
-Example substring_negative_hyp_sat : in_i64 2 /\ (-1 < 0)%Z. Proof. unfold in_i64, MIN64, MAX64. lia. Qed.
 
 (* ---- strpos ---- *)
 Lemma find_sub_bound cs p : forall i, find_sub cs p = Some i -> i <= lenN cs.
@@ -423,7 +411,7 @@ Lemma old_right_refuted : Old.impl_right [97; 98; 99] MIN64 = Panic.
 Proof. vm_compute. reflexivity. Qed.
 Lemma old_substring_refuted_hang :        (* substring('hello', 0, 2) *)
   Old.impl_substring 1000 [104; 101; 108; 108; 111] 0 2 = OutOfFuel /\
-  spec_substring [104; 101; 108; 108; 111] 0 2 = Some [104].
+  spec_substring [104; 101; 108; 108; 111] 0 2 = [104].
 Proof. split; vm_compute; reflexivity. Qed.
 Lemma old_lpad_refuted_boundary :         (* lpad('héllo', 2, 'x') *)
   Old.impl_lpad 100 [104; 233; 108; 108; 111] 2 [120] = Panic /\
@@ -524,27 +512,41 @@ Proof.
   - rewrite rev_involutive. exact H3.
 Qed.
 
-(* ---- split_part: as written ---- *)
-Lemma split_part_positive_correct cs d n : (0 < n)%Z ->
-  option_map Ok (spec_split_part cs d n) = Some (impl_split_part cs d n).
+(* ---- split_part: full strength, every n ---- *)
+Lemma nth_list_nth l : forall k, nth_list l k = nth (N.to_nat k) l [].
 Proof.
-  intros H. unfold spec_split_part, impl_split_part.
-  destruct (n =? 0)%Z eqn:E0; [lia|]. destruct (is_nil d).
-  - cbn [option_map]. destruct (n =? 1)%Z eqn:E1; [reflexivity|].
-    destruct (n =? -1)%Z eqn:E2; [lia|reflexivity].
-  - destruct (0 <? n)%Z eqn:E3; [reflexivity|lia].
+  induction l as [|x l IH]; intros k; [destruct (N.to_nat k); reflexivity|].
+  cbn [nth_list]. destruct (k =? 0) eqn:E.
+  - assert (k = 0) by lia. subst. reflexivity.
+  - rewrite IH. replace (N.to_nat k) with (S (N.to_nat (k - 1))) by lia. reflexivity.
 Qed.
 
-(* the three remaining deviations (the known findings about split_part) *)
-Lemma split_part_zero_deviation cs d : impl_split_part cs d 0 = Ok [] /\ spec_split_part cs d 0 = None.
-Proof. unfold impl_split_part, spec_split_part. cbn. destruct (is_nil d); split; reflexivity. Qed.
+Lemma nth_list_rev l k : 1 <= k ->
+  nth_list (rev l) (k - 1) = if lenN l <? k then [] else nth_list l (lenN l - k).
+Proof.
+  intros K. rewrite !nth_list_nth. unfold lenN. destruct (N.of_nat (length l) <? k) eqn:E.
+  - apply nth_overflow. rewrite rev_length. lia.
+  - rewrite rev_nth by lia. f_equal. lia.
+Qed.
 
-Lemma split_part_empty_delimiter_deviation cs :
-  impl_split_part cs [] (-1) = Ok [] /\ spec_split_part cs [] (-1) = Some cs.
-Proof. split; reflexivity. Qed.
+Lemma split_part_correct cs d n : impl_split_part cs d n = Ok (spec_split_part cs d n).
+Proof.
+  unfold impl_split_part, spec_split_part.
+  destruct (n =? 0)%Z eqn:E0.
+  { assert (n = 0%Z) by lia. subst. cbn. destruct (is_nil d); reflexivity. }
+  destruct (is_nil d); [reflexivity|].
+  destruct (0 <? n)%Z eqn:E1; [reflexivity|].
+  destruct (n <? 0)%Z eqn:E2; [|lia]. cbv zeta.
+  replace (Z.to_N (- n - 1)) with (Z.to_N (Z.abs n) - 1) by lia.
+  rewrite nth_list_rev by lia.
+  destruct (lenN (split_go cs d [] 0) <? Z.to_N (Z.abs n)); reflexivity.
+Qed.
 
-Lemma split_part_overlap_deviation :     (* split_part('aaa', 'aa', -1) *)
-  impl_split_part [97; 97; 97] [97; 97] (-1) = Ok [] /\ spec_split_part [97; 97; 97] [97; 97] (-1) = Some [97].
+(* regression witnesses about the code before e3543b716 (rsplit; empty delimiter only for n = 1) *)
+Definition old_split_part_neg (cs d : list N) (n : Z) : list N :=
+  nth_list (map (@rev N) (split_go (rev cs) (rev d) [] 0)) (Z.to_N (- n - 1)).
+Lemma old_split_part_overlap_refuted :     (* split_part('aaa', 'aa', -1) was '' *)
+  old_split_part_neg [97; 97; 97] [97; 97] (-1) = [] /\ spec_split_part [97; 97; 97] [97; 97] (-1) = [97].
 Proof. split; vm_compute; reflexivity. Qed.
 
 (* ---- results are valid UTF-8 ---- *)
@@ -660,37 +662,31 @@ Proof.
   - split; apply encode_valid, ascii_valid; assumption.
 Qed.
 
-(* initcap: full statement `initcap_ascii cs = Ok (spec_initcap_ascii cs)` is refuted (initcap_refuted:
-   'a+b'); it holds when every non-alphanumeric character is one of the separators initcap.rs knows *)
-Lemma initcap_go_correct cs : forall cap prev, cap = negb prev -> initcap_seps_known cs = true ->
-  initcap_go up1 lo1 ascii_alpha ascii_space cap cs = spec_initcap_go prev cs.
+Lemma ascii_upper_nonalpha c : ascii_alpha c = false -> ascii_upper c = c.
+Proof. unfold ascii_upper, ascii_alpha. intros H. destruct ((97 <=? c) && (c <=? 122)) eqn:X; lia. Qed.
+Lemma ascii_lower_nonalpha c : ascii_alpha c = false -> ascii_lower c = c.
+Proof. unfold ascii_lower, ascii_alpha. intros H. destruct ((65 <=? c) && (c <=? 90)) eqn:X; lia. Qed.
+
+(* initcap, full strength: first letter of every maximal alphanumeric run upper, the rest lower *)
+Lemma initcap_go_correct cs : forall cap prev, cap = negb prev ->
+  initcap_go up1 lo1 ascii_alpha ascii_alnum cap cs = spec_initcap_go prev cs.
 Proof.
-  unfold initcap_seps_known. induction cs as [|c r IH]; intros cap prev E K; [reflexivity|].
-  cbn [forallb] in K. apply andb_true_iff in K as [Kc K].
+  induction cs as [|c r IH]; intros cap prev E; [reflexivity|].
   cbn [initcap_go spec_initcap_go]. destruct (ascii_alpha c) eqn:A.
-  - cbn [orb]. rewrite (IH false true eq_refl K). subst cap. destruct prev; reflexivity.
-  - cbn [orb] in *. destruct (ascii_digit c) eqn:D.
-    + assert (S : is_sep ascii_space c = false).
-      { unfold is_sep, ascii_space, ascii_digit in *. lia. }
-      rewrite S, (IH false true eq_refl K).
-      assert (U : ascii_upper c = c) by (unfold ascii_upper, ascii_digit in *; destruct ((97 <=? c) && (c <=? 122)) eqn:X; lia).
-      assert (Lc : ascii_lower c = c) by (unfold ascii_lower, ascii_digit in *; destruct ((65 <=? c) && (c <=? 90)) eqn:X; lia).
-      rewrite U, Lc. destruct prev; reflexivity.
-    + cbn [orb] in Kc. rewrite Kc, (IH true false eq_refl K).
-      assert (U : ascii_upper c = c) by (unfold ascii_upper, ascii_alpha in *; destruct ((97 <=? c) && (c <=? 122)) eqn:X; lia).
-      assert (Lc : ascii_lower c = c) by (unfold ascii_lower, ascii_alpha in *; destruct ((65 <=? c) && (c <=? 90)) eqn:X; lia).
-      rewrite U, Lc. destruct prev; reflexivity.
+  - cbn [orb]. rewrite (IH false true eq_refl). subst cap. destruct prev; reflexivity.
+  - assert (AN : ascii_alnum c = ascii_digit c) by (unfold ascii_alnum; rewrite A; reflexivity).
+    rewrite AN. cbn [orb].
+    rewrite (IH (negb (ascii_digit c)) (ascii_digit c) eq_refl).
+    rewrite (ascii_upper_nonalpha c A), (ascii_lower_nonalpha c A). destruct prev; reflexivity.
 Qed.
 
-Lemma initcap_correct_partial cs : initcap_seps_known cs = true ->
-  initcap_ascii cs = Ok (spec_initcap_ascii cs).
+Lemma initcap_correct cs : initcap_ascii cs = Ok (spec_initcap_ascii cs).
 Proof.
-  intros K. unfold initcap_ascii, impl_initcap, spec_initcap_ascii. f_equal.
-  apply initcap_go_correct; [reflexivity|exact K].
+  unfold initcap_ascii, impl_initcap, spec_initcap_ascii. f_equal.
+  apply initcap_go_correct. reflexivity.
 Qed.
 
-Example initcap_hyp_sat : initcap_seps_known [104; 105; 32; 120; 95; 49; 121] = true. Proof. reflexivity. Qed.
-
-Lemma initcap_refuted :       (* initcap('a+b') = 'A+b', the definition says 'A+B' *)
-  initcap_ascii [97; 43; 98] = Ok [65; 43; 98] /\ spec_initcap_ascii [97; 43; 98] = [65; 43; 66].
+(* regression witness about the definition before 900b19af8: initcap('a+b') = 'A+b' *)
+Lemma old_initcap_refuted :
+  old_initcap_ascii [97; 43; 98] = Ok [65; 43; 98] /\ spec_initcap_ascii [97; 43; 98] = [65; 43; 66].
 Proof. split; vm_compute; reflexivity. Qed.
